@@ -32,6 +32,7 @@ type runCtx struct {
 	solver  string
 	start   time.Time
 	only    string // run only harnesses whose name contains this
+	boundsOverride map[string]int
 }
 
 func main() {
@@ -46,6 +47,7 @@ func main() {
 	verbose := fs.Bool("v", false, "verbose")
 	solver := fs.String("solver", "", "override solver (cvc5, z3, z3-new)")
 	only := fs.String("only", "", "run only harnesses whose name contains this string")
+	boundsFlag := fs.String("bounds", "", "override bounds, e.g. strlen=6,paths=100 (experiments only)")
 	fs.Parse(os.Args[2:])
 	if t := os.Getenv("VERIF_TIER"); t != "" {
 		*tier = t
@@ -55,6 +57,13 @@ func main() {
 		seed, _ = strconv.Atoi(s)
 	}
 	rc := &runCtx{id: id, tier: *tier, seed: seed, verbose: *verbose, solver: *solver, start: time.Now(), only: *only}
+	rc.boundsOverride = map[string]int{}
+	for _, kv := range strings.Split(*boundsFlag, ",") {
+		if i := strings.IndexByte(kv, '='); i > 0 {
+			n, _ := strconv.Atoi(kv[i+1:])
+			rc.boundsOverride[kv[:i]] = n
+		}
+	}
 	if *replay != "" {
 		os.Exit(replayFile(rc, *replay))
 	}
